@@ -38,7 +38,8 @@ def load_matrix(filename, comment_char):
         numcols = 0
         file_lines = f.readlines()
         for line in file_lines:
-            if line[0] == comment_char:
+            if line[0] == comment_char or line[0] == '#':
+                # ('#' is what QUBOContainer.export writes for both file kinds)
                 # comment line. Get constant of objective if possible;
                 # if the line contains an equal sign the constant is after it
                 split_contents = line.split('=')
